@@ -1,0 +1,150 @@
+//go:build verif
+
+package cursor
+
+import (
+	"fmt"
+	"strings"
+	"time"
+
+	"github.com/logrange/logrange/pkg/container"
+)
+
+// ProviderVerif gives the verification harness (/verif, property C15) access to the cursor cache of a
+// provider: explicit knobs, sweeps on demand, ageing instead of sleeping, a dump of the busy ring.
+// Pure additions; nothing here is compiled without the build tag `verif`.
+type ProviderVerif struct{ p *provider }
+
+// NewProviderVerif builds a provider like NewProvider() but with the given factory and knobs. The sweeper
+// goroutine is NOT started (Init is not called): the harness calls the sweeps itself.
+func NewProviderVerif(itf ItFactory, maxCurs int, idleTo, busyTo time.Duration) (Provider, ProviderVerif) {
+	p := NewProvider().(*provider)
+	p.Itf = itf
+	p.maxCurs = maxCurs
+	p.idleTo = idleTo
+	p.busyTo = busyTo
+	return p, ProviderVerif{p}
+}
+
+// ProviderVerifOf wraps a provider assembled elsewhere (e.g. the one of a running server).
+func ProviderVerifOf(pr Provider) (ProviderVerif, bool) {
+	p, ok := pr.(*provider)
+	return ProviderVerif{p}, ok
+}
+
+// Knobs returns maxCurs, idleTo, busyTo as set by NewProvider (or NewProviderVerif).
+func (v ProviderVerif) Knobs() (int, time.Duration, time.Duration) {
+	return v.p.maxCurs, v.p.idleTo, v.p.busyTo
+}
+
+// SweepByTime runs one sweepByTime() pass the way sweeper() does (lock held); a panic is returned as text.
+func (v ProviderVerif) SweepByTime() (res string) {
+	defer func() {
+		if r := recover(); r != nil {
+			v.p.lock.Unlock()
+			res = fmt.Sprint("PANIC ", r)
+		}
+	}()
+	v.p.lock.Lock()
+	v.p.sweepByTime()
+	v.p.lock.Unlock()
+	return "ok"
+}
+
+// SweepBySize runs one sweepBySize() pass the way sweeper() does (lock held); a panic is returned as text.
+func (v ProviderVerif) SweepBySize() (res string) {
+	defer func() {
+		if r := recover(); r != nil {
+			v.p.lock.Unlock()
+			res = fmt.Sprint("PANIC ", r)
+		}
+	}()
+	v.p.lock.Lock()
+	v.p.sweepBySize()
+	v.p.lock.Unlock()
+	return "ok"
+}
+
+func (v ProviderVerif) ringElems() []*container.CLElement {
+	// forward (next) order starting at the head; Prev() walks backward, so fill from the end
+	if v.p.busy == nil {
+		return nil
+	}
+	n := v.p.busy.Len()
+	res := make([]*container.CLElement, n)
+	e := v.p.busy
+	for i := n - 1; i >= 0; i-- {
+		e = e.Prev()
+		res[i] = e
+	}
+	return res
+}
+
+// Age makes every holder of the busy ring d older (expTime -= d): the harness advances the clock instead of sleeping.
+func (v ProviderVerif) Age(d time.Duration) {
+	v.p.lock.Lock()
+	for _, e := range v.ringElems() {
+		ch := e.Val.(*curHldr)
+		ch.expTime = ch.expTime.Add(-d)
+	}
+	v.p.lock.Unlock()
+}
+
+// Dump prints the busy ring in forward (next) order from the head as "<journal of the cursor>:<busy 0|1>",
+// the size of the id map and the free pool counter. name identifies a cursor (the harness keys it by object
+// identity, because a closed cursor has forgotten its journals); nil = JNameVerif.
+func (v ProviderVerif) Dump(name func(Cursor) string) string {
+	if name == nil {
+		name = JNameVerif
+	}
+	v.p.lock.Lock()
+	defer v.p.lock.Unlock()
+	items := []string{}
+	for _, e := range v.ringElems() {
+		ch := e.Val.(*curHldr)
+		jn := "nil"
+		if ch.cur != nil {
+			jn = name(ch.cur)
+		}
+		b := 0
+		if ch.busy {
+			b = 1
+		}
+		items = append(items, fmt.Sprintf("%s:%d", jn, b))
+	}
+	return fmt.Sprintf("ring=[%s] map=%d free=%d freelen=%d", strings.Join(items, ","), len(v.p.curs), v.p.freePoolSz, v.p.free.Len())
+}
+
+// MapIds returns the ids the map currently knows, with the journal name of the cursor each maps to.
+func (v ProviderVerif) MapIds() map[uint64]string {
+	v.p.lock.Lock()
+	defer v.p.lock.Unlock()
+	res := map[uint64]string{}
+	for id, e := range v.p.curs {
+		ch := e.Val.(*curHldr)
+		jn := "nil"
+		if ch.cur != nil {
+			jn = JNameVerif(ch.cur)
+		}
+		res[id] = jn
+	}
+	return res
+}
+
+// JNameVerif names a cursor by (one of) the journals it holds: "closed" after close(), "empty" for the shared empty cursor.
+func JNameVerif(c Cursor) string {
+	cc, ok := c.(*crsr)
+	if !ok {
+		return "empty"
+	}
+	if cc.jDescs == nil {
+		return "closed"
+	}
+	for k := range cc.jDescs {
+		return k
+	}
+	return "none"
+}
+
+// IsEmptyCurVerif tells whether c is the shared cursor returned for a query without sources.
+func IsEmptyCurVerif(c Cursor) bool { return c == emptyCur }
